@@ -34,7 +34,8 @@ sys.path.insert(0, REPO)
 
 from drive_codec import CallTimeout, _alarm, innermost_site  # noqa: E402
 
-FILLERS = ["", " ", "  ", "\t", "\n", "--c\n", "--c--", "/*c*/", "/*a/*b*/c*/", "/*c\nd*/", "\r\n"]   # = Layout!Fillers
+FILLERS = ["", " ", "  ", "\t", "\n", "--c\n", "--c--", "/*c*/", "/*a/*b*/c*/", "/*c\nd*/", "\r\n",
+           "/*\f\"*/", "--\"\f\n"]   # = Layout!Fillers
 PARSE_TIMEOUT = int(os.environ.get('VERIF_PARSE_TIMEOUT', '600'))
 
 
